@@ -34,7 +34,8 @@ func (l *SkipListIndexLoader) Load(indexPath string, _ *proto.MetaData) (_ Sorte
 
 	err = reader.Open()
 	if err != nil {
-		return nil, fmt.Errorf("error while opening index reader of sstable in '%s': %w", indexPath, err)
+		// the file is open since the reader was created
+		return nil, errors.Join(fmt.Errorf("error while opening index reader of sstable in '%s': %w", indexPath, err), reader.Close())
 	}
 
 	defer func() {
